@@ -145,7 +145,6 @@ Proof.
     - destruct (hp s) eqn:EH; try discriminate. destruct (blk_eqb b b0) eqn:EB; [|discriminate].
       apply blk_eqb_eq in EB. subst.
       apply in_or_app. right. apply in_or_app. right. apply in_or_app. left. left. reflexivity.
-    - apply in_or_app. right. apply in_or_app. left. left. reflexivity.
     - destruct (pc s) eqn:EP; try discriminate. destruct (call_eqb c c0 && result_eqb r r0) eqn:EC; [|discriminate].
       apply andb_true_iff in EC as [EC ER]. apply call_eqb_eq in EC. subst.
       assert (r = r0).
